@@ -8,6 +8,7 @@ import z3
 
 from .. import assume as A
 from .. import spec
+from ..report import FAILED, PROVED, ob
 from ..env import curves, heavy
 from ..symx import harness as H
 from ..symx.sym import Sym
@@ -289,6 +290,51 @@ def task_reject(shape, rational):
 task_reject.contract_fn = "curves.Curve.knot_insert"
 
 
+# --------------------------------------------------------------------------------------
+# engine B: the node argument may be any iterable (tuple, generator, iterator, map, numpy array): same result as for a list
+# --------------------------------------------------------------------------------------
+def task_argkinds():
+    fn = "curves.Curve.knot_insert"
+    import numpy as np
+    F = Fraction
+    U = [F(-1)] * 3 + [F(0), F(2)] + [F(3)] * 3
+    P = [F(1), F(-2), F(4), F(0), F(3)]
+    W = [F(1), F(2), F(1), F(3), F(1)]
+    kinds = {
+        "tuple": lambda xs: tuple(xs), "generator": lambda xs: (x for x in xs), "iterator": lambda xs: iter(list(xs)), "map": lambda xs: map(lambda x: x, xs),
+        "numpy-object-array": lambda xs: np.array(list(xs), dtype=object), "reversed-list": lambda xs: list(xs)[::-1], "dict-keys": lambda xs: dict.fromkeys(xs).keys(),
+    }
+    out = []
+    for rational in (False, True):
+        for nodes in ([F(1)], [F(1, 2), F(5, 2)], [F(0)], [F(2), F(2), F(1)], [F(7)], [F(0), F(0), F(0)]):
+            if "dict-keys" and len(set(nodes)) != len(nodes):
+                pass
+            ref = curves.Curve(list(U), list(P), list(W) if rational else None)
+            try:
+                ref.knot_insert(list(nodes))
+                want = ("ok", tuple(ref.knotvector), tuple(ref.ctrlpoints), ref.weights)
+            except ValueError:
+                want = ("ValueError", tuple(ref.knotvector), tuple(ref.ctrlpoints), ref.weights)
+            for kind, mk in kinds.items():
+                if kind == "dict-keys" and len(set(nodes)) != len(nodes):
+                    continue
+                c = curves.Curve(list(U), list(P), list(W) if rational else None)
+                try:
+                    c.knot_insert(mk(nodes))
+                    got = ("ok", tuple(c.knotvector), None if c.ctrlpoints is None else tuple(c.ctrlpoints), c.weights)
+                except Exception as e:
+                    got = (type(e).__name__, tuple(c.knotvector), None if c.ctrlpoints is None else tuple(c.ctrlpoints), c.weights)
+                ok = got == want
+                out.append(ob("%s:argument-kind[%s,nodes=%s,%s]" % (fn, kind, "+".join(map(str, nodes)), "rat" if rational else "pol"), fn, PROVED if ok else FAILED,
+                              "B", "concrete", 0.0, "same outcome and state as for the list %s" % list(map(str, nodes)) if ok else
+                              "list gives %s, %s gives %s" % (str(want)[:160], kind, str(got)[:200]),
+                              None if ok else dict(kind="c04.argkind", argkind=kind, nodes=[str(x) for x in nodes], rational=rational)))
+    return out + [{"_stats": dict(cases=len(out))}]
+
+
+task_argkinds.contract_fn = "curves.Curve.knot_insert"
+
+
 def tasks(tier, seed):
     from ..pyvc.driver import verify
     from ..contracts import kv, misc
@@ -305,6 +351,7 @@ def tasks(tier, seed):
         if tier != "quick" or len(sh[1]) <= 1:
             ts.append((task_reject, (sh, False)))
     ts.append((task_reject, ((2, (1,)), True)))
+    ts.append((task_argkinds, ()))
     return ts
 
 
@@ -329,6 +376,10 @@ def oracle_curve_equal(U1, P1, W1, U2, P2, W2, p):
 
 def replay(o):
     w = o["witness"]
+    if w.get("kind") == "c04.argkind":
+        tag = "[%s,nodes=%s,%s]" % (w["argkind"], "+".join(w["nodes"]), "rat" if w["rational"] else "pol")
+        r = [x for x in task_argkinds() if "id" in x and x["id"].endswith(tag)][0]
+        return r["status"] == FAILED, "same outcome and state as for a list argument", r["detail"]
     shape, pt, U, ks = concrete_inputs(w)
     p = shape[0]
     n = len(U) - p - 1
